@@ -10,6 +10,16 @@ _cells.update({'equality_checked': 5000, 'equality_against_stripped_rebuild': 20
                'op_add': 1000, 'op_prepend': 1000, 'op_addmulti': 1000, 'op_replace': 1000, 'op_replace_okadd': 1000, 'op_remove_at': 1000,
                'op_remove_last': 1000, 'op_findcopy': 1000, 'op_ensureprivate': 1000, 'op_copyname': 1000, 'op_sharename': 1000,
                'op_movename': 1000, 'op_rename': 1000, 'op_reorder': 1000, 'op_alias': 1000})
+# construction routes and oracle steps of the second round (each must have been exercised)
+_cells.update({'route_plain': 5000, 'route_lightweight_copy_private_mutation': 1000, 'route_lightweight_copy_shared_mutation': 1000, 'route_from_bytes_then_mutated': 1000,
+               'route_copy_then_mutated': 1000, 'route_swapcontents': 1000, 'route_crossname': 1000, 'second_messages_checked': 2000,
+               'crossname_swapname': 300, 'crossname_swapname_both_present': 100, 'crossname_swapname_one_present': 100, 'crossname_movename': 300, 'crossname_copyname': 300, 'crossname_sharename': 300,
+               'op_sort': 5000, 'op_sort_one_item_range': 5000, 'op_normalize': 5000, 'op_findcopy_message_by_value': 2000, 'op_findcopy_cstr': 1000,
+               'op_mutate_itemop': 2000, 'op_mutate_newfield': 300, 'op_mutate_removename': 300, 'op_mutate_what': 300,
+               'used_target_unrelated': 3000, 'used_target_copy_of_same': 3000, 'used_target_variant_of_same': 3000, 'used_target_previously_parsed': 3000,
+               'used_target_nonempty_incoming_empty': 500, 'used_target_had_more_fields': 2000, 'used_target_had_fewer_fields': 2000, 'equality_checked_on_used_target': 5000,
+               'arefieldsequal_checked': 50000, 'arefieldsequal_cross_unequal_checked': 20000, 'arefieldsequal_one_sided_checked': 2000, 'typefilter_lists_checked': 100000,
+               'observed_shared_mutation_visible_in_source': 100, 'tostring_calls': 300})
 _product = {'product_%s_%s' % (t, s): 1 for t in _TYPES for s in _STATES}
 _product.update({'cell_%s_%s' % (t, s): 1 for t in _TYPES for s in _STATES})
 
@@ -30,10 +40,23 @@ SPEC = dict(
           "it has some; with NaN items only consistency against a panel of other Messages), FlattenToByteBuffer / UnflattenFromByteBuffer / "
           "GetMessageFromPool(bytes), copy constructor and assignment, and an independent reader of the documented layout.  A case is "
           "non-trivial when at least one field reaches the wire (flattened size > 12); distinct = distinct flattened byte strings.  "
-          "The 'product' leg enumerates type class x representation state x field position (first/middle/last of three)."),
+          "The 'product' leg enumerates type class x representation state x field position (first/middle/last of three).  "
+          "Construction routes (roundtrip leg, PRNG-chosen, 40% plain): the Message under test is a lightweight copy (BecomeLightweightCopyOf / "
+          "GetLightweightCopyOfMessageFromPool) mutated after EnsureFieldIsPrivate (the source must keep its bytes, the copy must equal a deep copy "
+          "mutated the same way) or mutated in its shared arrays (both Messages must make the trip); a Message obtained from bytes "
+          "(GetMessageFromPool(bytes) and the explicit-pool overloads, Unflatten*) and then mutated; a deep copy (GetMessageFromPool(msg), CopyFrom, "
+          "CopyTo, Clone, FindMessage by value) mutated while the source must keep its bytes; SwapContents / move; SwapName / MoveName / CopyName / "
+          "ShareName between two generated Messages against the documented outcome.  Field-level routes: SortDataInField (expected order = stable "
+          "sort of the items by the type's default comparator, sub-ranges), GetPointerToNormalizedFieldData (contiguous items), by-value "
+          "FindMessage re-inserted, FindString(const char*&).  The parse step is repeated into a used target (unrelated content / copy of the same "
+          "Message / variant with more, fewer, retyped, reordered fields / product of an earlier Unflatten) with the same structure, bytes, checksum "
+          "and equality demands as for a fresh object; AreFieldsEqual must agree with field-wise equality; type-filtered field-name iteration must "
+          "list exactly the fields of that type in order."),
     assumptions=['the layout comment in Message::Flatten() (Message.cpp) and the doc comments of Message.h are the specification',
                  'operator== with NaN items is IEEE comparison (unspecified by the property): only consistency is demanded there',
                  'identity of tag objects and equality of copies holding pointer/tag fields are outside the property (counted as unspecified_*)',
+                 'a lightweight copy shares field data by documentation: item-level changes made without EnsureFieldIsPrivate may show in the '
+                 'source (counted as observed_*, not judged); changes to the field table and changes after EnsureFieldIsPrivate must not',
                  'the generator tracks the inline/array state of a field from the documented semantics (array from the 2nd item until the '
                  'last item is removed); the public API does not expose it',
                  'g++ 12 ASan/UBSan/LSan and valgrind memcheck report what they claim to report'],
@@ -43,5 +66,5 @@ SPEC = dict(
         Leg('product', 'h_msgroundtrip', 'asan', opts={'mode': 'product'}, quick=1890, thorough=63000, workers=16, leaks=True),
         Leg('memcheck', 'h_msgroundtrip', 'plain', opts={'mode': 'roundtrip'}, quick=1000, thorough=20000, workers=16, valgrind=True),
     ],
-    min_stats={'regress': {'regress_messages': 25}, 'roundtrip': _cells, 'product': _product},
+    min_stats={'regress': {'regress_messages': 40}, 'roundtrip': _cells, 'product': _product},
 )
